@@ -41,7 +41,7 @@ def histgen(rng, oids):
     hg = hist.HistGen(rng, oids, weights=dict(
         insert_one=12, insert_many=4, update_one=6, update_many=3, replace_one=3,
         delete_one=3, delete_many=1, find=0, count=0, distinct=0, create_index=4,
-        drop_index=0, drop_indexes=1, drop=1, bulk_write=22), ttl=False)
+        drop_index=0, drop_indexes=1, drop=1, bulk_write=22, bulk_builder=7), ttl=False)
     hg.ug.malformed = 0.12
     return hg
 
@@ -84,9 +84,49 @@ def probe(runner, op):
     return res
 
 
+def builder_oracle(history, steps, i, st):
+    """a builder executed `times` times: the first execute is the bulk (same outcome and state as
+    bulk_write with the same requests on a twin), every later one is refused and changes nothing"""
+    fails = []
+    reqs, ordered, times = st.op[1], st.op[2], st.op[3]
+    if st.out[0] != 'val' or not isinstance(st.out[1], list):
+        return fails          # a request was refused while the bulk was being built
+    outs = st.out[1]
+    if len(outs) != times:
+        return [(i, 'builder-outcomes', '%d executes gave %d outcomes' % (times, len(outs)))]
+    if not reqs:
+        for o in outs:
+            if (o.get('k'), o.get('v')) != ('err', 'InvalidOperation'):
+                fails.append((i, 'empty-bulk', 'executing an empty builder gave %r' % (o,)))
+        return fails
+    for j, o in enumerate(outs[1:]):
+        if (o.get('k'), o.get('v')) != ('err', 'InvalidOperation'):
+            fails.append((i, 'execute-twice', 'execute number %d of the same builder gave %r (the '
+                          'first one gave %r)' % (j + 2, o, outs[0])))
+    twin = histcheck.run_history(history[:i] + [['bulk_write', reqs, ordered]], st.oids)
+    t = twin[i]
+    first = outs[0]
+    if t.out[0] == 'val':
+        exp = ('val', t.out[1])
+    elif t.out[0] == 'err' and t.out[1] == 'BulkWriteError':
+        exp = ('bulkErr', t.out[2])
+    else:
+        exp = ('err', t.out[1])
+    if (first.get('k'), first.get('v')) != exp:
+        fails.append((i, 'builder-first', 'the first execute gave %r, bulk_write with the same '
+                      'requests gives %r' % (first, exp)))
+    if state_of(st.obs) != state_of(t.obs):
+        fails.append((i, 'execute-twice-state', 'after %d executes the collection is %r, after one '
+                      'bulk_write with the same requests %r' % (times, state_of(st.obs), state_of(t.obs))))
+    return fails
+
+
 def oracle(history, steps):
     fails = []
     for i, st in enumerate(steps):
+        if st.op[0] == 'bulk_builder':
+            fails.extend(builder_oracle(history, steps, i, st))
+            continue
         if st.op[0] != 'bulk_write':
             continue
         reqs, ordered = st.op[1], st.op[2]
